@@ -20,6 +20,18 @@ def storeH : Handler := fun j => do
       outs := outs.push (jOpt jInt (st.load name))
   pure <| jObj [("results", .arr outs), ("names", jList (fun (r : String × Int) => Json.arr #[.str r.1, jInt r.2]) st)]
 
-def handlers : List (String × Handler) := [("store", storeH)]
+/-- `{"fn":"attrdict","dict":[["name", value|null], ...],"queries":[["name", default|null], ...]}` → the value `from_dict` assigns. -/
+def attrH : Handler := fun j => do
+  let d ← listOf (fun x => do
+    match (← x.getArr?).toList with
+    | [k, v] => pure ((← k.getStr?), (← optOf ratOf v))
+    | _ => throw "bad entry") (← field j "dict")
+  let qs ← listOf (fun x => do
+    match (← x.getArr?).toList with
+    | [k, v] => pure ((← k.getStr?), (← optOf ratOf v))
+    | _ => throw "bad query") (← field j "queries")
+  pure <| jList (fun (q : String × Option Rat) => jOpt jRat (attrFromDict d q.2 q.1)) qs
+
+def handlers : List (String × Handler) := [("store", storeH), ("attrdict", attrH)]
 
 end Driver.Serial
